@@ -49,6 +49,11 @@ ASSUMPTIONS = [
     'no chemical is classified both gas-only and non-volatile',
     'VLE._lever_rule is modelled with the repair of fixes_proposed/C03-1.md (vapour flow limited to what is there); '
     'on the tree as found the check reports negative-flow:vle:lever-rule',
+    'reactive flashes themselves are excluded (below), but ORDINARY calls after one on the same cached VLE object are inside '
+    'the property: the generator draws reactive-then-plain histories (package E, esterification; ops `rvle`), the reactive '
+    'call runs un-recorded and un-judged, the model is told what its `_setup` stored (`vle.reactive`, theorem '
+    'vle_history_reactive_independent) and every later ordinary call is compared step by step and judged by the oracle '
+    '(non-negativity only when the flows before the call were non-negative)',
     'EXCLUDED ENTRY POINTS (reactive flash; they change per-chemical totals by design): VLE.__call__ / Stream.vle / '
     'MultiStream.vle with gas_conversion= or liquid_conversion= (Reaction, ReactionItem, KineticReaction or handle), hence '
     'the conversion branches of set_thermal_condition, set_TV, set_PV, set_PH (the `+ dz*F_mol_vle`, `_dmol_vle`, `_dF_mol` '
@@ -595,6 +600,7 @@ def setup():
     pkg('C', ['Water', 'Ethanol', 'Octane', C('N2', phase='g'), C('CO2', phase='g'),
               C('Glucose', phase='l', default=True), C('NaCl', phase='s', default=True)])
     pkg('D', ['Water', 'Tetradecanol', 'Ethanol', 'Glycerol', C('O2', phase='g')])
+    pkg('E', ['EthylLactate', 'LacticAcid', 'Water', 'Ethanol'])      # esterification: reactive-flash histories
     tmo.settings.set_thermo(PKG['A']['thermo'])
     _install()
 
@@ -714,6 +720,35 @@ def run_ops(ops):
                 tags.append('skip:edit:' + type(e).__name__)
             continue
         kw = _kw(t[1:])
+        if op == 'rvle':
+            # A REACTIVE flash on the stream's cached VLE object.  It is outside the property (it converts material by
+            # design) and outside the model: it runs un-recorded, and the model is only told what `_setup` stored in the
+            # object (`vle.reactive`).  What matters is the ORDINARY calls that follow on the same object: they are
+            # inside the property and must not see the reaction delta the flash left behind (`_dmol_vle`, `_dF_mol`).
+            try:
+                rxn = tmo.Reaction('LacticAcid + Ethanol -> Water + EthylLactate', reactant='LacticAcid',
+                                   X=float(kw.get('X', 0.2)), chemicals=pkg['thermo'].chemicals)
+                eqo = s.vle
+                args = {k: float(kw[k]) for k in ('T', 'P', 'V') if k in kw}
+                args['gas_conversion' if kw.get('in') == 'g' else 'liquid_conversion'] = rxn
+                try:
+                    eqo(**args); tags.append('reactive:returned')
+                except Exception as e:
+                    tags.append('reactive:raise:' + type(e).__name__)
+                rec = Rec(s, pkg); rec.objs = objs
+                nz = sorted(int(i) for i in (eqo._nonzero or ()))
+                idx = list(eqo._index) if not isinstance(eqo._index, slice) else []
+                dm = getattr(eqo, '_dmol_vle', None)
+                try: dmol = rec.expand(idx, dm) if dm is not None and np.ndim(dm) else [0.0] * rec.n
+                except Exception: dmol = [0.0] * rec.n
+                try: dF = float(getattr(eqo, '_dF_mol', 0.0) or 0.0)
+                except Exception: dF = 0.0
+                if any(dmol): tags.append('reactive:leftover-delta')
+                model_in.append(f'vle.reactive {rec.oid(eqo)} {",".join(map(str, nz))} {rec.fl(dmol)} {fbits(dF)}')
+                outs.append('ok')
+            except Exception as e:
+                tags.append('skip:rvle:' + type(e).__name__)
+            continue
         rec = Rec(s, pkg)
         before = rec.dense()
         exc = None
@@ -809,7 +844,12 @@ def run_ops(ops):
                 failures.append({'signature': f'not-conserved:{spec}', 'op_index': oi,
                                  'what': f'`{line}`: per-chemical totals over all phases changed: ' +
                                          '; '.join(f'{c}: {b!r} -> {a!r}' for c, b, a in bad[:4])})
-            if not nonneg:
+            pre_ok = all(x >= -1e-12 * scale for r in ROWS for x in before[r])
+            if not pre_ok:
+                # the property quantifies over non-negative flows; a reactive flash (excluded) can leave a negative
+                # flow of its limiting reactant behind: the call is then judged for conservation and placement only
+                tags.append('pre-state-negative')
+            if not nonneg and pre_ok:
                 r_, i_ = min(((r, i) for r in ROWS for i in range(len(tb))), key=lambda ri: after[ri[0]][ri[1]])
                 branch = (op + ':lever-rule' if any(t.startswith('vle:lever') for t in rec.tags) else spec)
                 failures.append({'signature': f'negative-flow:{branch}', 'op_index': oi,
@@ -897,13 +937,15 @@ PKG_IDS = {
     'B': ['Water', 'Ethanol', 'Octane', 'Hexane', 'Butanol'],
     'C': ['Water', 'Ethanol', 'Octane', 'N2', 'CO2', 'Glucose', 'NaCl'],
     'D': ['Water', 'Tetradecanol', 'Ethanol', 'Glycerol', 'O2'],
+    'E': ['EthylLactate', 'LacticAcid', 'Water', 'Ethanol'],
 }
-PKG_VLE = {'A': [0, 1, 2, 3], 'B': [0, 1, 2, 3, 4], 'C': [0, 1, 2], 'D': [0, 1, 2, 3]}
+PKG_VLE = {'A': [0, 1, 2, 3], 'B': [0, 1, 2, 3, 4], 'C': [0, 1, 2], 'D': [0, 1, 2, 3], 'E': [0, 1, 2, 3]}
 SUBSETS = {
     'A': [[0, 1, 2, 3], [0, 1], [0], [1, 2, 3], [2, 3]],
     'B': [[0, 1, 2, 3, 4], [0, 2], [0, 1, 2], [2, 3], [0, 4], [0, 1]],
     'C': [[0, 1, 2, 3, 4, 5, 6], [0, 1, 3, 4], [0, 1, 5, 6], [3, 5, 6], [0, 3], [1, 5], [0, 6], [0, 1, 2], [3, 4], [0, 1, 2, 3, 5]],
     'D': [[0, 1, 2, 3, 4], [0, 1], [1], [0, 1, 4], [1, 2], [0, 2, 3]],
+    'E': [[0, 1, 2, 3], [1, 2, 3], [2, 3]],
 }
 
 
@@ -1005,7 +1047,7 @@ def grid_cases(rng):
     """every (package, subset) x initial distribution x operation kind at least once"""
     out = []
     modes = ['first', 'last', 'alternate', 'random']
-    for pkgname in 'ABCD':
+    for pkgname in 'ABCDE':
         for si, subset in enumerate(SUBSETS[pkgname]):
             for ki, kind in enumerate(VLE_KINDS):
                 mode = modes[(si + ki) % 4]
@@ -1026,7 +1068,7 @@ def grid_cases(rng):
 
 
 def random_case(rng):
-    pkgname = rng.choice('AABBCCCD')
+    pkgname = rng.choice('AABBCCCDE')
     n = len(PKG_IDS[pkgname])
     subset = [i for i in range(n) if rng.random() < 0.6] or [rng.randrange(n)]
     fam = rng.choice(['vle'] * 6 + ['lle', 'lle', 'sle', 'vlle', 'mixed'])
@@ -1057,7 +1099,7 @@ def _edit(rng, pkgname, phases, present):
     """an edit between two calls of a history; most keep the set of present chemicals (so `_setup` re-uses its
     index) and put material into the phase where the previous call cannot have left it"""
     n = len(PKG_IDS[pkgname])
-    pk = {'A': ([], []), 'B': ([], []), 'C': ([3, 4], [5, 6]), 'D': ([4], [])}[pkgname]
+    pk = {'A': ([], []), 'B': ([], []), 'C': ([3, 4], [5, 6]), 'D': ([4], []), 'E': ([], [])}[pkgname]
     light = [i for i in pk[0] if i in present]; heavy = [i for i in pk[1] if i in present]
     vol = [i for i in PKG_VLE[pkgname] if i in present]
     r = rng.random()
@@ -1085,10 +1127,40 @@ def _edit(rng, pkgname, phases, present):
     return None
 
 
+def _rvle_op(rng):
+    T = round(rng.uniform(352, 372), 2); P = float(f'{10 ** rng.uniform(4.85, 5.1):.6g}')
+    spec = f'T={T} P={P}' if rng.random() < 0.8 else rng.choice([f'T={T} V={round(rng.uniform(0.2, 0.8), 2)}',
+                                                                 f'P={P} V={round(rng.uniform(0.2, 0.8), 2)}'])
+    return f'rvle {spec} X={rng.choice([0.2, 0.5, 0.05, 0.8, 0.2])}' + (' in=g' if rng.random() < 0.25 else '')
+
+
+def reactive_history(rng):
+    """ordinary VLE calls on a stream whose cached VLE object ran a reactive flash earlier (package E)"""
+    n = 4
+    rows = {'g': [0.0] * n, 'l': [0.0] * n}
+    s = rng.choice([1.0, 1.0, 100.0, _flow(rng)])
+    for i, f in ((1, 1.0), (2, rng.choice([1.0, 0.5, 3.0])), (3, rng.choice([5.0, 2.0, 8.0]))):
+        rows[rng.choice('ll g'.replace(' ', ''))][i] = float(f'{f * s * rng.uniform(0.7, 1.3):.6g}')
+    if rng.random() < 0.4: rows['l'][0] = float(f'{0.3 * s:.6g}')
+    ops = [f'new E multi gl {round(rng.uniform(300, 360), 2)} 101325.0 {_fmt_rows(rows)}']
+    if rng.random() < 0.4: ops.append(_vle_op(rng, rng.choice(['TP', 'PV'])))
+    present = {i for i in range(n) if rows['g'][i] + rows['l'][i] > 0}
+    for k in range(rng.randrange(2, 6)):
+        if k == 0 or rng.random() < 0.2: ops.append(_rvle_op(rng))
+        T = round(rng.uniform(352, 372), 2); P = float(f'{10 ** rng.uniform(4.85, 5.1):.6g}'); V = round(rng.uniform(0.1, 0.9), 2)
+        ops.append(rng.choice([f'vle T={T} P={P}', f'vle T={T} P={P}', f'vle T={T} V={V}', f'vle P={P} V={V}',
+                               _vle_op(rng, rng.choice(['PH', 'PS', 'TP']))]))
+        if rng.random() < 0.3:
+            e = _edit(rng, 'E', 'gl', present)
+            if e: ops.append(e)
+    return Case(ops, {'history': 'reactive-then-plain'})
+
+
 def history_case(rng, fam=None, pkgname=None):
     """2-4 calls on ONE stream through its cached solver objects, flows edited in between"""
     fam = fam or rng.choice(['vle'] * 5 + ['lle', 'lle', 'sle', 'sle', 'vlle', 'mixed', 'mixed'])
-    pkgname = pkgname or (rng.choice('DDDC') if fam == 'sle' else rng.choice('ABBCCCD'))
+    if pkgname is None and fam in ('vle', 'mixed') and rng.random() < 0.25: return reactive_history(rng)
+    pkgname = pkgname or (rng.choice('DDDC') if fam == 'sle' else rng.choice('ABBCCCDE'))
     n = len(PKG_IDS[pkgname])
     subset = [i for i in range(n) if rng.random() < 0.7] or [rng.randrange(n)]
     if fam == 'sle' and pkgname == 'D' and 1 not in subset: subset.append(1)
@@ -1124,6 +1196,7 @@ def grid_histories(rng):
         for fam in ('vle', 'lle', 'sle', 'vlle', 'mixed'):
             for _ in range(2):
                 out.append(history_case(rng, fam, pkgname))
+    for _ in range(6): out.append(reactive_history(rng))
     # the two shapes reported by the coordinator, spelled out
     out.append(Case(['new C multi gl 330.0 101325.0 g:0.0,0.0,0.0,2.0,1.0,0.0,0.0|l:10.0,5.0,1.0,0.0,0.0,1.0,0.5',
                      'vle T=350.0 P=101325.0', 'add l:3:0.75,l:4:0.25,g:5:0.5,g:6:0.125', 'vle T=350.0 P=101325.0',
